@@ -37,6 +37,8 @@ func checkC06(r *core.Run) {
 		// a branch is only taken over if its blocks are valid: no transaction's scripts are skipped on the
 		// strength of another transaction's "already verified" answer
 		c04TrustPerTx(r, p, ct, "R-C06-order")
+		// what a connected block spends is marked for removal on every way (shared with C04): the mark is what the commit deletes
+		c04SpendMarked(r, p, ct, "R-C06-commit")
 	}
 	// tie
 	mp := p.Func("lib/chain.(*BlockTreeNode).MorePOW")
